@@ -19,11 +19,12 @@
    Part 4  GA / ES: the best solution held never gets worse (any comparator that is a strict weak order;
            ParetoDominance on one objective is one)
 
-   Nothing is left partial.  What the statements do NOT say (see META.level_note of the driver): IEEE rounding in
+   Nothing is left partial.  Axioms: none, except in the two statements c09_spea2_fitness_*_is_real, which speak
+   about real numbers (standard-library real-number axioms).  What the statements do NOT say (see META.level_note of the driver): IEEE rounding in
    crowding distances / epsilon boxes / SPEA2 distances is not modelled; SPEA2's fitness raw + 1/(d_k + 2) is
    represented by the pair (raw, d_k^2), which orders identically in real arithmetic; NSGA-III's reference-point
    arithmetic is abstracted to "some sequence of picks from the cut front" and the theorem holds for ALL of them. *)
-From Coq Require Import ZArith QArith Bool List Permutation.
+From Coq Require Import ZArith QArith Bool List Permutation Reals Qreals.
 Import ListNotations.
 From PV Require Import Base.Num Base.Order Base.StableSort Model.Dominance Proofs.DominanceProofs
      Model.Archive Proofs.ArchiveProofs Model.NDSort Proofs.NDSortProofs Model.Truncate Proofs.TruncateProofs
@@ -176,6 +177,17 @@ Section C09_spea2.
     spea2_survive cmp dist2 k offspring population n <> OutOfFuel.
   Proof. exact (spea2_fuel_suffices T cmp dist2). Qed.
 End C09_spea2.
+
+(* why the float fitness  raw + 1/(sqrt(d2) + 2)  may be represented by the pair (raw, d2): in REAL arithmetic the
+   model's two comparisons are exactly  a.fitness < b.fitness  and  a.fitness < 1.0
+   (these two theorems use the real-number axioms of the standard library, listed in ALLOWED_AXIOMS) *)
+Theorem c09_spea2_fitness_order_is_real : forall a b : fit, (0 <= f_dk2 a)%Q -> (0 <= f_dk2 b)%Q ->
+  (fit_lt a b = true <-> (fitR (f_raw a) (Q2R (f_dk2 a)) < fitR (f_raw b) (Q2R (f_dk2 b)))%R).
+Proof. exact fit_lt_is_real_order. Qed.
+
+Theorem c09_spea2_fitness_lt1_is_real : forall a : fit, (0 <= f_dk2 a)%Q ->
+  (fit_lt1 a = true <-> (fitR (f_raw a) (Q2R (f_dk2 a)) < 1)%R).
+Proof. exact fit_lt1_is_real. Qed.
 
 Theorem c09_x_spea2_elitist : forall c dirs k (offspring population : list xsol) n surv,
   Forall (sol_wf xq xltb xzero dirs) (offspring ++ population) ->
